@@ -48,7 +48,7 @@ func (s *Struct) Assign(gen Generator, ctx *MethodContext, assignTo *AssignTo, s
 		if fieldMapping.Ignore {
 			continue
 		}
-		if !targetField.Exported() && ctx.Conf.IgnoreUnexported {
+		if !targetField.Exported() && ctx.Conf.IgnoreUnexported && fieldMapping.Source == "" && fieldMapping.Function == nil {
 			continue
 		}
 
